@@ -876,11 +876,13 @@ func schedRun(c *Ctx) {
 			continue
 		}
 		c.R.State(evid.Hash("job", job.name))
+		c.R.Count("sched_jobs_total", 1)
 		for b := 0; b <= bound; b++ {
 			if !exploreJob(c, job, b) {
 				break
 			}
 			completed[b] = true
+			c.R.Count(fmt.Sprintf("sched_jobs_completed_deviation_bound_%d", b), 1)
 		}
 		if c.Expired() {
 			break
